@@ -7,44 +7,44 @@ COMMON_ASSUME = [
 ]
 
 TIERS = {
-    "C17": {"quick": {"runs": 130, "budget_s": 240, "run_timeout_s": 600},
-            "thorough": {"runs": 3000, "budget_s": 1500, "run_timeout_s": 1200}},
-    "C11": {"quick": {"runs": 60, "budget_s": 240, "run_timeout_s": 600},
-            "thorough": {"runs": 3000, "budget_s": 1500, "run_timeout_s": 1500}},
-    "C08": {"quick": {"runs": 220, "budget_s": 240, "run_timeout_s": 400},
-            "thorough": {"runs": 5000, "budget_s": 1200, "run_timeout_s": 900}},
-    "C10": {"quick": {"runs": 160, "budget_s": 240, "run_timeout_s": 500},
-            "thorough": {"runs": 3000, "budget_s": 1500, "run_timeout_s": 1200}},
-    "C09": {"quick": {"runs": 110, "budget_s": 240, "run_timeout_s": 400},
-            "thorough": {"runs": 3000, "budget_s": 1500, "run_timeout_s": 900}},
-    "C20": {"quick": {"runs": 300, "budget_s": 240, "run_timeout_s": 300},
-            "thorough": {"runs": 5000, "budget_s": 900, "run_timeout_s": 600}},
-    "C13": {"quick": {"runs": 240, "budget_s": 240, "run_timeout_s": 300},
-            "thorough": {"runs": 4000, "budget_s": 900, "run_timeout_s": 600}},
-    "C14": {"quick": {"runs": 110, "budget_s": 240, "run_timeout_s": 300},
-            "thorough": {"runs": 6000, "budget_s": 900, "run_timeout_s": 600}},
-    "C16": {"quick": {"runs": 70, "budget_s": 240, "run_timeout_s": 300},
-            "thorough": {"runs": 5000, "budget_s": 900, "run_timeout_s": 600}},
-    "C19": {"quick": {"runs": 500, "budget_s": 240, "run_timeout_s": 300},
-            "thorough": {"runs": 8000, "budget_s": 900, "run_timeout_s": 600}},
-    "C18": {"quick": {"runs": 150, "budget_s": 240, "run_timeout_s": 400},
-            "thorough": {"runs": 3000, "budget_s": 900, "run_timeout_s": 900}},
-    "C12": {"quick": {"runs": 110, "budget_s": 240, "run_timeout_s": 300},
-            "thorough": {"runs": 5000, "budget_s": 900, "run_timeout_s": 600}},
-    "C07": {"quick": {"runs": 170, "budget_s": 240, "run_timeout_s": 300},
-            "thorough": {"runs": 6000, "budget_s": 900, "run_timeout_s": 600}},
-    "C03": {"quick": {"runs": 100, "budget_s": 240, "run_timeout_s": 300},
-            "thorough": {"runs": 6000, "budget_s": 900, "run_timeout_s": 600}},
-    "C04": {"quick": {"runs": 90, "budget_s": 240, "run_timeout_s": 300},
-            "thorough": {"runs": 6000, "budget_s": 900, "run_timeout_s": 600}},
-    "C05": {"quick": {"runs": 50, "budget_s": 240, "run_timeout_s": 400},
-            "thorough": {"runs": 8000, "budget_s": 1500, "run_timeout_s": 900}},
-    "C02": {"quick": {"runs": 110, "budget_s": 240, "run_timeout_s": 300},
-            "thorough": {"runs": 6000, "budget_s": 900, "run_timeout_s": 600}},
-    "C01": {"quick": {"runs": 110, "budget_s": 240, "run_timeout_s": 300},
-            "thorough": {"runs": 6000, "budget_s": 900, "run_timeout_s": 600}},
-    "C06": {"quick": {"runs": 24, "budget_s": 240, "run_timeout_s": 240},
-            "thorough": {"runs": 3000, "budget_s": 900, "run_timeout_s": 400}},
+    "C17": {"quick": {"runs": 130, "budget_s": 240, "run_timeout_s": 900},
+            "thorough": {"runs": 3000, "budget_s": 1500, "run_timeout_s": 1800}},
+    "C11": {"quick": {"runs": 60, "budget_s": 240, "run_timeout_s": 900},
+            "thorough": {"runs": 3000, "budget_s": 1500, "run_timeout_s": 1800}},
+    "C08": {"quick": {"runs": 220, "budget_s": 240, "run_timeout_s": 900},
+            "thorough": {"runs": 5000, "budget_s": 1200, "run_timeout_s": 1800}},
+    "C10": {"quick": {"runs": 160, "budget_s": 240, "run_timeout_s": 900},
+            "thorough": {"runs": 3000, "budget_s": 1500, "run_timeout_s": 1800}},
+    "C09": {"quick": {"runs": 110, "budget_s": 240, "run_timeout_s": 900},
+            "thorough": {"runs": 3000, "budget_s": 1500, "run_timeout_s": 1800}},
+    "C20": {"quick": {"runs": 300, "budget_s": 240, "run_timeout_s": 900},
+            "thorough": {"runs": 5000, "budget_s": 900, "run_timeout_s": 1800}},
+    "C13": {"quick": {"runs": 240, "budget_s": 240, "run_timeout_s": 900},
+            "thorough": {"runs": 4000, "budget_s": 900, "run_timeout_s": 1800}},
+    "C14": {"quick": {"runs": 110, "budget_s": 240, "run_timeout_s": 900},
+            "thorough": {"runs": 6000, "budget_s": 900, "run_timeout_s": 1800}},
+    "C16": {"quick": {"runs": 70, "budget_s": 240, "run_timeout_s": 900},
+            "thorough": {"runs": 5000, "budget_s": 900, "run_timeout_s": 1800}},
+    "C19": {"quick": {"runs": 500, "budget_s": 240, "run_timeout_s": 900},
+            "thorough": {"runs": 8000, "budget_s": 900, "run_timeout_s": 1800}},
+    "C18": {"quick": {"runs": 150, "budget_s": 240, "run_timeout_s": 900},
+            "thorough": {"runs": 3000, "budget_s": 900, "run_timeout_s": 1800}},
+    "C12": {"quick": {"runs": 110, "budget_s": 240, "run_timeout_s": 900},
+            "thorough": {"runs": 5000, "budget_s": 900, "run_timeout_s": 1800}},
+    "C07": {"quick": {"runs": 170, "budget_s": 240, "run_timeout_s": 900},
+            "thorough": {"runs": 6000, "budget_s": 900, "run_timeout_s": 1800}},
+    "C03": {"quick": {"runs": 100, "budget_s": 240, "run_timeout_s": 900},
+            "thorough": {"runs": 6000, "budget_s": 900, "run_timeout_s": 1800}},
+    "C04": {"quick": {"runs": 90, "budget_s": 240, "run_timeout_s": 900},
+            "thorough": {"runs": 6000, "budget_s": 900, "run_timeout_s": 1800}},
+    "C05": {"quick": {"runs": 50, "budget_s": 240, "run_timeout_s": 900},
+            "thorough": {"runs": 8000, "budget_s": 1500, "run_timeout_s": 1800}},
+    "C02": {"quick": {"runs": 110, "budget_s": 240, "run_timeout_s": 900},
+            "thorough": {"runs": 6000, "budget_s": 900, "run_timeout_s": 1800}},
+    "C01": {"quick": {"runs": 110, "budget_s": 240, "run_timeout_s": 900},
+            "thorough": {"runs": 6000, "budget_s": 900, "run_timeout_s": 1800}},
+    "C06": {"quick": {"runs": 24, "budget_s": 240, "run_timeout_s": 900},
+            "thorough": {"runs": 3000, "budget_s": 900, "run_timeout_s": 1800}},
 }
 
 GFI_COMPONENTS = {"real": ["genjax.core (Fn handlers, Distribution, Vmap, Scan, Cond, traces)",
